@@ -76,6 +76,10 @@ impl Module for Target {
             }));
         }
         net::log("start", self.inc, stage as i64);
+        if stage == 1 {
+            // a (re)started module can use its gates right away
+            send(Message::default().id(60_000 + self.inc as u16), "hello");
+        }
     }
     fn handle_message(&mut self, msg: Message) {
         let id = msg.header().id as usize;
@@ -166,6 +170,7 @@ pub fn run_case(case: &Case) -> Result<(bool, Vec<&'static str>), Failure> {
     let through = sim.gate("t", "through");
     sim.gate("d", "to_b").connect(through.clone(), Some(chan2));
     through.connect(sim.gate("b", "in"), None);
+    sim.gate("t", "hello").connect(sim.gate("b", "hello_in"), None);
     let target = sim.get(&ObjectPath::from("t")).unwrap();
     let mut rt = Builder::seeded(17).quiet().max_itr(20_000).build(sim.freeze());
     for (t, id) in &direct {
@@ -212,6 +217,7 @@ pub fn run_case(case: &Case) -> Result<(bool, Vec<&'static str>), Failure> {
     let mut inc: i64 = 1;
     want_t.push(r("t", "start", 1, 0, 0));
     want_t.push(r("t", "start", 1, 1, 0));
+    want_b.push(r("b", "brecv", 60_001, 0, 0));
     if max_ticks >= 1 {
         push(&mut agenda, period, Ev::Tick(1, 1));
     }
@@ -264,6 +270,7 @@ pub fn run_case(case: &Case) -> Result<(bool, Vec<&'static str>), Failure> {
                 cycles += 1;
                 want_t.push(r("t", "start", inc, 0, now));
                 want_t.push(r("t", "start", inc, 1, now));
+                want_b.push(r("b", "brecv", 60_000 + inc, 0, now));
                 if max_ticks >= 1 {
                     push(&mut agenda, now + period, Ev::Tick(inc, 1));
                 }
@@ -354,7 +361,7 @@ impl Prop for C09 {
 
     fn rule() -> String {
         "generated fault placements: a target module (2 start-up stages, a timer task ticking every 1..6 ms up to 7 times per incarnation), a \
-         driver and a bystander; messages injected directly and sent by the driver over a latency channel (in transit at shutdown), messages to the \
+         driver and a bystander (greeted by the target through a gate from its last start-up stage in every incarnation); messages injected directly and sent by the driver over a latency channel (in transit at shutdown), messages to the \
          bystander routed through a transit gate owned by the target; shutdown / shutdown-and-restart(0..40 ms) commands attached to generated \
          messages and to generated (incarnation, tick) points of the task, up to several cycles. All instants are distinct by construction \
          (microsecond offsets). Oracle: an incarnation model yields the exact log (kind, incarnation, time) of the target (start stages once each at \
